@@ -5,7 +5,7 @@
 From Coq Require Import List Arith Bool Sorted.
 Import ListNotations.
 From Verif Require Import BatchRPC.Model BatchRPC.Proofs BatchRPC.Proofs2 BatchRPC.Proofs3 BatchRPC.Proofs4 BatchRPC.Proofs5
-  BatchRPC.System BatchRPC.SysProofs BatchRPC.RunLoop BatchRPC.RunLoopProofs.
+  BatchRPC.System BatchRPC.SysProofs BatchRPC.RunLoop BatchRPC.RunLoopProofs BatchRPC.Pool BatchRPC.PropsLemmas.
 
 (* ids: allocation order is strictly increasing, every id is allocated exactly once (also across stream
    re-creation: no step lowers next_id), every id in the table was allocated to exactly that entry *)
@@ -48,12 +48,7 @@ Theorem C18_exactly_once :
         e_comp (ent s c) <> [] \/ e_ret (ent s c) <> None)
   /\ (forall s c r l, e_ret (ent s c) = None -> e_comp (ent s c) = r :: l ->
         exists s', step s (Return c) = Some s' /\ e_ret (ent s' c) = Some r).
-Proof.
-  split; [exact comp_at_most_once|].
-  split; [intros s ls s' c r R; apply run_ret_stable; now apply reachable_inv|].
-  split; [exact completed_when_retired|].
-  split; [exact completed_when_table_empty | exact return_enabled].
-Qed.
+Proof. exact C18_exactly_once_l. Qed.
 Print Assumptions C18_exactly_once.
 
 (* stream failure (both branches of the epoch CAS, client not closed): no entry of that stream stays in flight, each
@@ -117,11 +112,7 @@ Print Assumptions C18_monitor_sound.
    found under an id is the one the id was allocated to *)
 Theorem C18_ids_fresh_across_streams : forall s i c c', reachable s ->
   In (i, c) (tab s) -> In (i, c') (tab s) -> c = c' /\ e_host (ent s c) = e_host (ent s c') /\ lookup i (alloc s) = Some c.
-Proof.
-  intros s i c c' R H1 H2. pose proof (reachable_inv s R) as I.
-  pose proof (NoDup_fst_inj _ _ _ _ (I_tab_nodup s I) H1 H2). subst. repeat split; auto.
-  apply sorted_lookup; [apply (I_alloc_sorted s I)|]. apply (I_st_alloc s I). left. now apply (I_tab_st s I).
-Qed.
+Proof. exact C18_ids_fresh_across_streams_l. Qed.
 Print Assumptions C18_ids_fresh_across_streams.
 
 (* an entry cancelled while it is still queued (before buildWithLimit looked at it): its caller has returned the
@@ -142,9 +133,7 @@ Print Assumptions C18_canceled_before_build.
 Theorem C18_recv_panic_keeps_pending : forall s h s',
   (step s (RecvPanic h) = Some s' \/ step s (FailPanic h) = Some s') ->
   tab s' = tab s /\ ent s' = ent s /\ alloc s' = alloc s /\ loops s' h = LIdle (epoch s').
-Proof.
-  intros s h s' [H|H]; [destruct (recv_panic_keeps _ _ _ H) as (A & B & C & _ & D) | destruct (fail_panic_keeps _ _ _ H) as (A & B & C & D)]; auto.
-Qed.
+Proof. exact C18_recv_panic_keeps_pending_l. Qed.
 Print Assumptions C18_recv_panic_keeps_pending.
 
 (* ... and every entry that was pending on that stream is completed exactly once in every continuation that reaches
@@ -177,10 +166,7 @@ Theorem C18_build_round : forall x lim takes x', xstep x (XBuildRound lim takes)
       /\ next_id (core x') = next_id (core x) + length ps
       /\ map fst ps = seq (S (next_id (core x))) (length ps)
       /\ (forall i c, In (i, c) ps -> In c takes /\ e_canceled (ent (core x) c) = false)).
-Proof.
-  intros x lim takes x' H. destruct (round_discipline _ _ _ _ H) as (A & B & _). split; auto. split; auto.
-  exact (round_ids_consecutive _ _ _ _ H).
-Qed.
+Proof. exact C18_build_round_l. Qed.
 Print Assumptions C18_build_round.
 
 (* buildWithLimit(limit) loses nothing: every entry that was in the builder is afterwards either popped-and-cancelled
@@ -194,7 +180,7 @@ Theorem C18_round_nothing_lost : forall x lim takes x', xstep x (XBuildRound lim
      \/ (In c takes /\ e_canceled (ent (core x) c) = false /\ exists i, e_st (ent (core x') c) = Built i /\ In (i, c) (alloc (core x')))
      \/ (~ In c takes /\ In c (inb x') /\ ent (core x') c = ent (core x) c))
   /\ (inb x' = [] \/ exists l, lim = Some l /\ l <= counted (ent (core x)) (pri x) takes).
-Proof. intros x lim takes x' H. split; [exact (round_nothing_lost _ _ _ _ H) | exact (round_quota _ _ _ _ H)]. Qed.
+Proof. exact C18_round_nothing_lost_l. Qed.
 Print Assumptions C18_round_nothing_lost.
 
 (* leftover entries are retried without a new arrival (fix 7ad2a8a).  They are never lost (C18_round_nothing_lost: what is
@@ -212,27 +198,68 @@ Theorem C18_leftover_retried :
        /\ xstep x1 (XBuildRound lim (inb x)) = Some x2 /\ e_st (ent (core x2) c) = Built i /\ inb x2 = [])
   /\ (forall x l x', ready x = false -> xstep x l = Some x' -> l <> XWake -> (forall c, l <> XFetch c) ->
         ready x' = false /\ (forall lim takes, xstep x (XBuildRound lim takes) = None)).
-Proof. split; [exact wake_builds_leftover | exact leftover_needs_wake]. Qed.
+Proof. exact C18_leftover_retried_l. Qed.
 Print Assumptions C18_leftover_retried.
 
-(* Close and the asynchronous API (after fix 000f10e).  (1) When batchSendLoop returns it drains the channel: every
-   asynchronous entry still queued there gets exactly the closed error.  (2) An asynchronous entry that is (or gets)
-   queued while the client is closed can be failed by the sender's re-check.  (3) Regression witness for the code
-   before the fix: once the send loop is gone, NOTHING ELSE completes a queued asynchronous call except its own
-   context -- without (1) and (2) such a call with a context without deadline never returned. *)
+(* Close and the asynchronous API (after fix 000f10e).  (1) When batchSendLoop returns because the client is closed it
+   drains the channel: every asynchronous entry still queued there gets exactly the closed error.  (2) The sender's
+   re-check: an asynchronous call that enqueues its entry while the client is closed is failed at once. *)
 Theorem C18_close_fails_queued_async :
   (forall x x', xstep x XSendExit = Some x' ->
      chq x' = [] /\ sendloop x' = false
      /\ (forall c, In c (chq x) -> asy x c = true -> e_st (ent (core x) c) = Queued ->
            e_comp (ent (core x') c) = e_comp (ent (core x) c) ++ [Err EClosed] /\ e_st (ent (core x') c) = Retired))
-  /\ (forall x c, closed (core x) = true -> asy x c = true -> e_st (ent (core x) c) = Queued -> e_comp (ent (core x) c) = [] ->
-        exists x', xstep x (XCore (QueueFail c)) = Some x' /\ e_comp (ent (core x') c) = [Err EClosed] /\ e_st (ent (core x') c) = Retired)
-  /\ (forall x c l x', xreach x -> sendloop x = false -> asy x c = true ->
-        e_st (ent (core x) c) = Queued -> e_comp (ent (core x) c) = [] -> xstep x l = Some x' ->
-        (forall k, l <> XCore (Abort c k)) -> l <> XCore (QueueFail c) ->
-        ent (core x') c = ent (core x) c /\ sendloop x' = false /\ asy x' c = true).
-Proof. split; [exact send_exit_drains|]. split; [exact async_queuefail_enabled | exact async_after_exit]. Qed.
+  /\ (forall x c h p, closed (core x) = true -> e_st (ent (core x) c) = Fresh ->
+        exists x', xstep x (XSubmit c h p true) = Some x' /\ e_comp (ent (core x') c) = [Err EClosed] /\ e_st (ent (core x') c) = Retired).
+Proof. exact C18_close_fails_queued_async_l. Qed.
 Print Assumptions C18_close_fails_queued_async.
+
+(* PARTIAL by the code as it is (candidate finding, reported): once batchSendLoop has returned -- also when it returned
+   because the IDLE timer fired (XIdleExit: no drain, the conn is not closed yet) -- no step but the caller's own context
+   touches an asynchronous entry that is (still, or newly) queued: the sender's re-check happened when it enqueued, the
+   drain only runs on the closed exit.  Such a call with a context without deadline never returns.  The closed exit is
+   safe by C18_close_fails_queued_async; the idle exit is the open case (witness ex_async_idle_orphan). *)
+Theorem C18_async_completion_after_loop_exit_partial : forall x c l x', xreach x -> sendloop x = false -> asy x c = true ->
+  e_st (ent (core x) c) = Queued -> e_comp (ent (core x) c) = [] -> xstep x l = Some x' ->
+  (forall k, l <> XCore (Abort c k)) ->
+  ent (core x') c = ent (core x) c /\ sendloop x' = false /\ asy x' c = true.
+Proof. exact async_after_exit. Qed.
+Print Assumptions C18_async_completion_after_loop_exit_partial.
+
+(* the connection pool: every batchCommandsClient of every pool generation is a reachable core state (so every theorem
+   above holds for it); a call lives in exactly one of them; over the whole pool -- across CloseAddr / idle recycling /
+   Close -- it has at most one completion and a returned response is its own *)
+Theorem C18_pool_exactly_once_own_response : forall p c, preach p ->
+  (forall g k, reachable (p_cl p g k))
+  /\ (forall g k, p_home p c <> Some (g, k) -> ent (p_cl p g k) c = entry0)
+  /\ (forall g k, length (e_comp (ent (p_cl p g k) c)) <= 1)
+  /\ (forall g k g' k', e_comp (ent (p_cl p g k) c) <> [] -> e_comp (ent (p_cl p g' k') c) <> [] -> (g, k) = (g', k'))
+  /\ (forall g k q, e_ret (ent (p_cl p g k) c) = Some (Resp q) -> q = c /\ p_home p c = Some (g, k)).
+Proof. exact pool_exactly_once_own. Qed.
+Print Assumptions C18_pool_exactly_once_own_response.
+
+(* pool re-creation: every client of the old generation is closed, the re-creation itself completes and loses nothing,
+   later calls are routed to the new generation, and in a closed client every synchronous caller still waiting can return
+   the closed error (asynchronous ones: CloseFail / the drain, see above) *)
+Theorem C18_pool_recreate :
+  (forall p l p', (l = PCloseAddr \/ l = PRecycle) -> pstep p l = Some p' ->
+     p_gen p' = S (p_gen p)
+     /\ (forall k, closed (p_cl p' (p_gen p) k) = true)
+     /\ (forall g k, ent (p_cl p' g k) = ent (p_cl p g k) /\ tab (p_cl p' g k) = tab (p_cl p g k))
+     /\ (forall c k h p'', pstep p' (PRoute c k h) = Some p'' -> p_home p'' c = Some (S (p_gen p), k)))
+  /\ (forall s c, closed s = true -> e_st (ent s c) <> Fresh -> e_ret (ent s c) = None ->
+        exists s', step s (Abort c EClosed) = Some s' /\ e_ret (ent s' c) = Some (Err EClosed)).
+Proof. exact pool_recreate_full. Qed.
+Print Assumptions C18_pool_recreate.
+
+(* streams of one client share the id space and the table but are isolated: what happens on stream h (response batch,
+   Recv failure + re-creation, panic of its recv loop) completes / fails / removes only entries sent on h *)
+Theorem C18_stream_isolation : forall s l h s' c, reachable s -> step s l = Some s' ->
+  (l = RecvFinish h \/ l = StreamFail h \/ l = RecvPanic h \/ l = FailPanic h \/ exists i p, l = RecvLoad h i p) ->
+  e_host (ent s c) <> h -> e_st (ent s c) <> Fresh ->
+  ent s' c = ent s c /\ (forall i, In (i, c) (tab s) -> In (i, c) (tab s')).
+Proof. exact stream_isolation. Qed.
+Print Assumptions C18_stream_isolation.
 
 (* the non-batch path (one unary call per request): a completed call stays completed with the same result, a reply is
    the call's own, and after Close every pending call can be completed with the closed error *)
@@ -241,10 +268,7 @@ Theorem C18_unary_exactly_once :
   /\ (forall ls u' c p, urun uinit ls = Some u' -> ucalls u' c = UDone (Resp p) -> p = c)
   /\ (forall u c, uclosed u = true -> ucalls u c = UPending ->
         exists u', ustep u (UFail c EClosed) = Some u' /\ ucalls u' c = UDone (Err EClosed)).
-Proof.
-  split; [exact urun_done_stable|]. split; [|exact uclose_completes].
-  intros ls u' c p H. eapply urun_own; eauto. intros c0 p0 H0. discriminate.
-Qed.
+Proof. exact C18_unary_exactly_once_l. Qed.
 Print Assumptions C18_unary_exactly_once.
 
 (* util/async.RunLoop, on which every asynchronous completion is scheduled: in every reachable state
@@ -260,7 +284,7 @@ Theorem C18_runloop_fifo_once :
      /\ (exists rest, r_log st = r_done st ++ rest))
   /\ (forall st st', rstep st RStart = Some st' ->
         r_running st' = r_runnable st /\ r_runnable st' = [] /\ r_done st' = r_done st).
-Proof. split; [exact runloop_fifo_once | exact runloop_round_start]. Qed.
+Proof. exact C18_runloop_fifo_once_l. Qed.
 Print Assumptions C18_runloop_fifo_once.
 
 (* reqCollapse: the shared flight is owned by no caller.  A caller that has returned got either ITS OWN cancellation /
@@ -276,7 +300,7 @@ Theorem C18_collapse_follower_result :
         /\ (forall c', c' <> c -> c_call s' c' = c_call s c') /\ c_call s' c = CRet (Err e) /\ (e = ECtx \/ e = ETimeout))
   /\ (forall s c f r, c_call s c = CWait f -> c_fres s f = Some r ->
         exists s', cstep s (CDeliver c) = Some s' /\ c_call s' c = CRet r).
-Proof. split; [exact collapse_follower_result|]. split; [exact collapse_abort_frame | exact collapse_deliver_enabled]. Qed.
+Proof. exact C18_collapse_follower_result_l. Qed.
 Print Assumptions C18_collapse_follower_result.
 
 (* ---------------------------------------------------------------- non-vacuity *)
@@ -362,9 +386,23 @@ Example ex_async_close : let x := xget (xrun xinit [XSubmit 1 0 0 true; XCore Cl
   e_comp (ent (core x) 1) = [Err EClosed] /\ chq x = [] /\ sendloop x = false.
 Proof. vm_compute. auto. Qed.
 Example ex_async_after_exit : let x := xget (xrun xinit [XCore Close; XSendExit; XSubmit 1 0 0 true]) in
+  e_comp (ent (core x) 1) = [Err EClosed] /\ sendloop x = false.
+Proof. vm_compute. auto. Qed.
+
+(* the open case: the send loop exits on the idle timer while an asynchronous entry sits in the channel; the pool is
+   closed later (recycling): the hypotheses of C18_async_completion_after_loop_exit_partial hold, nothing completes it *)
+Example ex_async_idle_orphan : let x := xget (xrun xinit [XSubmit 1 0 0 true; XIdleExit; XCore Close]) in
   xreach x /\ sendloop x = false /\ asy x 1 = true /\ e_st (ent (core x) 1) = Queued /\ e_comp (ent (core x) 1) = []
-  /\ e_comp (ent (core (xget (xstep x (XCore (QueueFail 1))))) 1) = [Err EClosed].
-Proof. split; [exists [XCore Close; XSendExit; XSubmit 1 0 0 true]; reflexivity|]. vm_compute. auto. Qed.
+  /\ e_ret (ent (core x) 1) = None /\ xstep x XSendExit = None.
+Proof. split; [exists [XSubmit 1 0 0 true; XIdleExit; XCore Close]; reflexivity|]. vm_compute. auto 10. Qed.
+
+(* pool: call 1 on connection 0 of generation 0, CloseAddr, call 2 goes to generation 1; call 1 returns the closed error *)
+Definition pget (o : option pstate) : pstate := match o with Some p => p | None => pinit end.
+Example ex_pool : let p := pget (prun pinit [PRoute 1 0 0; PCore 0 0 (Build 1 1); PCore 0 0 (Store 1); PCloseAddr; PRoute 2 1 0;
+                                              PCore 0 0 (Abort 1 EClosed); PCore 1 1 (Build 2 1)]) in
+  p_gen p = 1 /\ p_home p 1 = Some (0, 0) /\ p_home p 2 = Some (1, 1) /\ e_ret (ent (p_cl p 0 0) 1) = Some (Err EClosed)
+  /\ e_st (ent (p_cl p 1 1) 2) = Built 1 /\ ent (p_cl p 1 1) 1 = entry0.
+Proof. vm_compute. auto 10. Qed.
 
 (* recv-loop panic between Load and deliver: the entry stays in the table, its (re-sent) response is delivered once *)
 Example ex_recv_panic : let s := get (run init [Submit 1 0; Build 1 1; Store 1; RecvLoad 0 1 1; RecvPanic 0; RecvLoad 0 1 1; RecvFinish 0; Return 1]) in
